@@ -557,4 +557,49 @@ MUTANTS += [
      "expect": [("C03", "C03|R1")]},
 ]
 
+MUTANTS += [
+    {"name": "c02-skip-recompute-stats",
+     "edits": [("src/index/manager.rs",
+                """        state.recompute_stats(index_file_size);
+""", """        let _ = index_file_size;
+""")],
+     "expect": [("C02", "C02|R5")]},
+    {"name": "c02-no-refcount-on-load",
+     "edits": [("src/index/persistence.rs",
+                """                    state.increment_ref(&item.blob_hash);
+""", "")],
+     "expect": [("C02", "C02|R5")]},
+    {"name": "c02-replay-from-scratch",
+     "edits": [("src/index/manager.rs",
+                """        wal_manager.replay_and_prepare(checkpoint_version, |op| {""",
+                """        let _ = checkpoint_version;
+        wal_manager.replay_and_prepare(None, |op| {""")],
+     "expect": [("C02", "C02|R3")]},
+    {"name": "c02-version-stored-after-save",
+     "edits": [("src/index/manager.rs",
+                """        snapshot.last_persisted_version = Some(target_version);
+
+        let serialized_len = IndexStatePersister::new(&self.paths).save(snapshot)?;
+""",
+                """        let serialized_len = IndexStatePersister::new(&self.paths).save(snapshot)?;
+        snapshot.last_persisted_version = Some(target_version);
+""")],
+     "expect": [("C02", "C02|R3")]},
+    {"name": "c02-replay-skips-large-records",
+     "edits": [("src/wal/replay.rs",
+                """                // Skip already-checkpointed ops
+""",
+                """                if entry.op_data.len() > (1 << 20) {
+                    continue;
+                }
+                // Skip already-checkpointed ops
+""")],
+     "expect": [("C02", "C02|R6")]},
+    {"name": "c02-prune-by-next-version",
+     "edits": [("src/index/manager.rs",
+                """            .commit_checkpoint(target_version, current_checkpoint)""",
+                """            .commit_checkpoint(wal_guard.get_next_op_version(), current_checkpoint)""")],
+     "expect": [("C02", "C02|R3")]},
+]
+
 BENIGN = []
